@@ -162,7 +162,18 @@ def run_interferer(op, ctx):
     elif kind == "config_eq":
         _ = pq.Config() == pq.Config(cutoff=5)
     elif kind == "other_simulation":
-        sub = gen.gen_subject(op.get("seed", 5), op.get("sim", "PureFockSimulator"), shots=op.get("shots", 3), d=2, mid=False)
+        # often the same simulator and width as the subject but another cutoff / hbar / dtype: what a cache
+        # whose key omits one of them would confuse
+        subj = ctx["subject"]
+        r = Rng(op.get("seed", 5), "other")
+        sim_name = subj["sim"] if r.chance(0.6) else op.get("sim", "PureFockSimulator")
+        sub = gen.gen_subject(op.get("seed", 5), sim_name, shots=op.get("shots", 3), d=subj["d"] if r.chance(0.7) else 2, mid=r.chance(0.3))
+        if "cutoff" in sub["config"] and r.chance(0.5):
+            sub["config"]["cutoff"] = max(2, subj["config"].get("cutoff", 4) + r.pick([-1, 1, 2]))
+        if r.chance(0.4):
+            sub["config"]["hbar"] = r.pick([1.0, 1.7, 3.0])
+        if r.chance(0.2):
+            sub["config"]["dtype"] = "float32"
         try:
             r = spec.build_simulator(sub).execute(spec.build_program(sub["program"]), shots=sub["shots"])
             r.samples
